@@ -17,7 +17,9 @@ import (
 
 func init() { register(&Monitor{ID: "C10", Run: runC10, Self: selfC10}) }
 
-var tfKeys = []string{"a", "b", "c", "key", "x", "inner", "list", "0", "1", "7", "name", "v a l", "\"q", "é", "clé", "日本", "naïve", "-1", "+1", "0x1", "nil", "A", "aa"}
+var tfKeys = []string{"a", "b", "c", "key", "x", "inner", "list", "0", "1", "7", "name", "v a l", "\"q", "é", "clé", "日本", "naïve", "-1", "+1", "0x1", "nil", "A", "aa",
+	// keys with characters that path syntaxes elsewhere treat specially: escapes, quotes, brackets, wildcards, blanks at the ends
+	"back\\", "C:\\tmp\\", "\\", "x\\y", "a/b", "a[0]", "[0]", "*", "a*", "$", "$ref", "@", "~", "~1", "a b ", " a", "a\tb", "a\nb", "%2E", "%23", "'q'", "a,b", "a:b", "a=b", "{x}", "key ", "KEY", "Key"}
 var tfObstacleKeys = []string{"", ".", "#", ".b", "#1", "a.b", "a#1", "..", "b.", ".a", "#0", "#"}
 
 // genTFTree: trees for the tree-form monitors: addressable keys (ASCII and not), plus obstacle keys that contain sigils.
@@ -158,7 +160,9 @@ func corruptions(r *rng.R, root *model.Node, path string) []string {
 			for _, idx := range []string{strconv.Itoa(n), strconv.Itoa(n + 1), "99999999999999999999",
 				// the ends of the integer ranges (an index computation such as i+1 or 2*i wraps there)
 				strconv.Itoa(math.MaxInt), strconv.Itoa(math.MaxInt - 1), strconv.Itoa(math.MaxInt / 2), strconv.Itoa(math.MaxInt/2 + 1), "2147483647", "2147483648", "4294967295", "4294967296",
-				"9223372036854775807", "9223372036854775808", "18446744073709551615", "18446744073709551616", "x", "1x", " 1", "one", segs[i].Text + "-", segs[i].Text + "+", segs[i].Text + "/", segs[i].Text + ",", "1-", "1+", "1/", "2*", "1 ", "1:", segs[i].Text + "e", "0-"} {
+				"9223372036854775807", "9223372036854775808", "18446744073709551615", "18446744073709551616",
+				// other number syntaxes (out of the domain: only the consistency of the two reads is judged)
+				"-1", "-2", "-0", "-" + strconv.Itoa(n), "-" + strconv.Itoa(n+1), "+0", "+1", "00", "01", "0x0", "0x1", "0b1", "0o1", "1_0", "0_0", "x", "1x", " 1", "one", segs[i].Text + "-", segs[i].Text + "+", segs[i].Text + "/", segs[i].Text + ",", "1-", "1+", "1/", "2*", "1 ", "1:", segs[i].Text + "e", "0-"} {
 				g[i].Text = idx
 				out = append(out, join(g))
 			}
@@ -238,7 +242,28 @@ func c10Case(c *fw.Ctx, r *rng.R, tree *spec.Spec) {
 			q := func() string { return fmt.Sprintf("%s\npath %q", describeTree(tree), p) }
 			switch st {
 			case model.OutOfDomain:
+				// an index spelled in another number syntax (sign, leading zero, base prefix, separator): whether it resolves
+				// is not stated, but the two reads must tell the same story: TypeOfTF never panics, it says TypeUndefined
+				// exactly when GetTF panics, and otherwise it is the kind of what GetTF returned
 				c.Count("queries_out_of_domain")
+				if tpan {
+					c.Violate("typeoftf-panics", q(), "a kind or TypeUndefined, without panicking", "panic: "+tmsg)
+					return false
+				}
+				if gpan != (t == at.TypeUndefined) {
+					obs := fmt.Sprintf("TypeOfTF = %d, GetTF returned %v", t, got)
+					if gpan {
+						obs = fmt.Sprintf("TypeOfTF = %d, GetTF panicked: %s", t, gmsg)
+					}
+					c.Violate("gettf-and-typeoftf-disagree", q(), "TypeOfTF is TypeUndefined exactly when GetTF panics", obs)
+					return false
+				}
+				if !gpan {
+					if k, ok := drive.KindOfValue(got); !ok || drive.TypeOfKind(k) != t {
+						c.Violate("gettf-and-typeoftf-disagree", q(), "TypeOfTF is the kind of the value GetTF returns", fmt.Sprintf("TypeOfTF = %d, GetTF returned %T %v", t, got, got))
+						return false
+					}
+				}
 				return true
 			case model.Resolved:
 				c.Count("queries_resolvable")
